@@ -1067,3 +1067,16 @@ def install_string_stubs(E):
             if cur[i] == c: return i
         return mask(-1, 64)
     S['_ZNKSt7__cxx1112basic_stringIcSt11char_traitsIcESaIcEE4findEcm'] = s_find_c
+    def s_rfind_c(E, st, fr, I, A):
+        cur = s_bytes(E, st, A[0]); c = A[1] & 0xff; pos = A[2]
+        if not cur: return mask(-1, 64)
+        start = len(cur) - 1 if (is_sym(pos) or pos >= len(cur)) else pos
+        for i in range(start, -1, -1):
+            x = cur[i]
+            if is_sym(x):
+                may = E.feasible(st, x == c)
+                if may and E.feasible(st, x != c): raise Unsupported('rfind: symbolic character may or may not match')
+                if may: return i
+            elif x == c: return i
+        return mask(-1, 64)
+    S['_ZNKSt7__cxx1112basic_stringIcSt11char_traitsIcESaIcEE5rfindEcm'] = s_rfind_c
